@@ -308,6 +308,10 @@ func statusCases() []caseRec {
 				"grouping": fmt.Sprintf("grouping g { status %s; leaf gl { type string; } } container c { status %s; uses g; }", s2, s1),
 				"feature":  fmt.Sprintf("feature f { status %s; } leaf l { if-feature f; type string; status %s; }", s2, s1),
 				"identity": fmt.Sprintf("identity b { status %s; } identity d { base b; status %s; }", s2, s1),
+				"refine-target":       fmt.Sprintf("grouping g { leaf a { type string; status %s; } } container c { uses g { status %s; refine a { description \"x\"; } } }", s2, s1),
+				"refine-target-deep":  fmt.Sprintf("grouping g { container gc { leaf a { type string; status %s; } } } container c { uses g { status %s; refine gc/a { description \"x\"; } } }", s2, s1),
+				"refine-target-mid":   fmt.Sprintf("grouping g { container gc { status %s; leaf a { type string; } } } container c { uses g { status %s; refine gc/a { description \"x\"; } } }", s2, s1),
+				"uses-augment-target": fmt.Sprintf("grouping g { container gc { status %s; leaf a { type string; } } } container c { uses g { status %s; augment gc { leaf extra { type string; } } } }", s2, s1),
 				"typedef-chain": fmt.Sprintf("typedef t0 { type string; status %s; } typedef t1 { type t0; status %s; } leaf l { type t1; status %s; }", s2, s1, s1),
 			}
 			var names []string
@@ -316,6 +320,9 @@ func statusCases() []caseRec {
 			}
 			sort.Strings(names)
 			for _, k := range names {
+				if (strings.HasPrefix(k, "refine-target") || k == "uses-augment-target") && statusRank[s2] < statusRank[s1] {
+					continue // a node more current than the uses that brings it: not settled (see above)
+				}
 				out = append(out, caseRec{Kind: "status", Name: fmt.Sprintf("reference-%s#%s->%s", k, s1, s2), Mods: map[string]string{"a": hdr + refs[k] + " }"}, Feats: []string{"a:f"}, Expect: exp})
 			}
 			// the same reference across modules is allowed
